@@ -159,7 +159,8 @@ class _TFM:
 
 
 class SimExecutor:
-    """loky's reusable executor as seen by LokyBackend: submit(func) -> real
+    MAX_INLINE = 3
+    __doc__ = """loky's reusable executor as seen by LokyBackend: submit(func) -> real
     concurrent.futures.Future, terminate(kill_workers), _temp_folder_manager.
     Batches are pickled/unpickled (BatchedCalls.__reduce__ and the reducer callback
     run); completion callbacks run in ONE manager thread, or inline inside
@@ -173,7 +174,7 @@ class SimExecutor:
         self.jobs = collections.deque(); self.done = collections.deque()
         self.idle = []; self.m_idle = None; self.joiners = []
         self.state = "run"; self._temp_folder_manager = _TFM(); self.running = {}
-        self.dead_workers = set()
+        self.dead_workers = set(); self.inline_depth = 0
         k = obs.next_pool_index()
         obs.note("executor_created", n)
         self.workers = [s.spawn("lw%d_%d" % (k, i), self._worker, role="worker") for i in range(n)]
@@ -189,28 +190,25 @@ class SimExecutor:
         blob = pickle.dumps(func)
         bid = self.obs.submit(self, func)
         f._sim_bid = bid
-        orig_invoke = f._invoke_callbacks
-
-        def invoke():              # delivery of the completion to joblib = callback start
-            if not f._done_callbacks:
-                return orig_invoke()
-            self.obs.cb_start(bid)
-            try:
-                orig_invoke()
-            finally:
-                self.obs.cb_end(bid)
-        f._invoke_callbacks = invoke
         orig_add = f.add_done_callback
 
         def add_done_callback(fn):
-            if f.done():
-                self.obs.note("inline_completion", bid)
-                self.obs.cb_start(bid, inline=True)
+            def delivered(fut):          # completion handed to joblib = callback start
+                inline = s.me() is not self.mgr
+                if inline:
+                    self.obs.note("inline_completion", bid)
+                    self.inline_depth += 1
+                self.obs.cb_start(bid, inline=inline)
                 try:
-                    return orig_add(fn)
+                    fn(fut)
                 finally:
+                    if inline:
+                        self.inline_depth -= 1
                     self.obs.cb_end(bid)
-            return orig_add(fn)
+            r = orig_add(delivered)
+            if self.m_idle is not None and self.done:
+                s.wake(self.m_idle)
+            return r
         f.add_done_callback = add_done_callback
         self.jobs.append((bid, f, blob))
         for w in self.idle:
@@ -256,10 +254,16 @@ class SimExecutor:
             if self.obs.stalled:
                 _stall(self.obs); continue
             if self.done and self.state == "run":
-                bid, f, (k, v) = self.done.popleft()
-                if not f.done():
-                    f.set_result(v) if k == "ok" else f.set_exception(v)
-                continue
+                # environment assumption: a future completes before joblib attached its
+                # callback (inline completion) at most MAX_INLINE times in a row -- in reality
+                # that needs a full worker round trip inside a few bytecodes of the caller
+                k = next((i for i, (_, f, _) in enumerate(self.done)
+                          if f._done_callbacks or self.inline_depth < self.MAX_INLINE), None)
+                if k is not None:
+                    bid, f, (kind, v) = self.done[k]; del self.done[k]
+                    if not f.done():
+                        f.set_result(v) if kind == "ok" else f.set_exception(v)
+                    continue
             if self.state == "breaking":
                 self.done.clear()
                 self._fail_pending(lambda: self.TWE(
